@@ -545,7 +545,7 @@ class Model(object):
       return v, m
     raise KeyError(op)
 
-  def mag(self, node, r, at=None):
+  def mag(self, node, r, at=None, on_joint=True):
     """Magnitude M(r) >= |value(r)|: sum of |terms| propagated through the tree."""
     r = F(r)
     at = r if at is None else F(at)
@@ -591,6 +591,11 @@ class Model(object):
       k = "spline"
     if k == "spline":
       rd, ra = F(node["rd"]), F(node["ra"])
+      near = lambda a_, b_: abs(a_ - b_) <= mpf("3e-10") * max(mpf(1), abs(b_))   # includes the +-1e-10 side probes of the oracle
+      if on_joint and (near(at, rd) or near(at, ra)):
+        # (to rounding) ON detach / attach the value is the same from both sides, but which side's ARITHMETIC produced it
+        # depends on the markers, on the construction and on how r was rounded: allow for the less accurate of the two
+        return max(self.mag(node, r, at, on_joint=False), self._spline_interior_mag(node, r))
       if at <= rd:
         s0 = node.get("s0")
         if s0 and s0[0] != "-inf":
@@ -601,6 +606,10 @@ class Model(object):
         return self.mag(node["start"], r, at)
       if at >= ra:
         return self.mag(node["end"], r, at)
+      return self._spline_interior_mag(node, r)
+    raise KeyError(k)
+
+  def _spline_interior_mag(self, node, r):
       co, cond = self.spline_info(node)
       # the double-precision solve carries a relative coefficient error ~ cond*u; express
       # it as a magnitude so that u*M bounds the value error
@@ -615,7 +624,6 @@ class Model(object):
         return abs(co[6]) + e * max(mpf(1), amp * cmax * sum(abs(r) ** i for i in range(6)))
       cmax = max(abs(c) for c in co)
       return amp * cmax * sum(abs(r) ** i for i in range(6))
-    raise KeyError(k)
 
   def max_submag(self, node, r, at=None):
     """Largest magnitude of any sub-expression at r: double arithmetic overflows when an
